@@ -479,6 +479,20 @@ def sx_hexf(x):
     return hex(x)
 
 
+def sx_len(x):
+    """len() that lets an object report a symbolic length (CPython's len() insists on a real int)"""
+    if type(x) in (list, tuple, dict, set, _real_str, bytes, frozenset):
+        return _real_len(x)
+    f = getattr(type(x), "__len__", None)
+    if f is None:
+        return _real_len(x)
+    g = getattr(f, "__get__", None)
+    r = g(x, type(x))() if g is not None else f(x)
+    if _real_isinstance(r, SymInt):
+        return r
+    return _real_len(x)
+
+
 def sx_sorted(it, *a, **k):
     it = list(it)
     if _any_proxy(it):
@@ -501,6 +515,7 @@ DISPATCH = {
     "chr": sx_chr,
     "int": sx_int,
     "hex": sx_hexf,
+    "len": sx_len,
 }
 
 
